@@ -117,6 +117,11 @@ def faults(r, nl):
     add("page-args-third-line", '<%page args="a,' + nl + "    b=1," + nl + '    c c"/>', "Either", off=2, col="unchecked", py=True)
     add("call-args-second-line", '<%call expr="fcall2_()" args="a,' + nl + '    b=)">x</%call>', "Either", off=1, col="unchecked", py=True)
     add("call-expr-second-line", '<%call expr="fcall3_(1,' + nl + '    2 +* 3)">x</%call>', "Either", off=1, col="unchecked", py=True)
+    # filter lists wrapped over lines, the fault after the first line
+    add("filter-list-second-line", "${x | h," + nl + "g g}", "Either", off=1, col="unchecked", py=True)
+    add("def-filter-third-line", '<%def name="flt_()" filter="h,' + nl + "trim," + nl + '    g g">x</%def>', "Either", off=2, col="unchecked", py=True)
+    add("page-expression-filter-second-line", '<%page expression_filter="h,' + nl + '    g g"/>', "Either", off=1, col="unchecked", py=True)
+    add("text-filter-second-line", '<%text filter="h,' + nl + '    g g">x</%text>', "Either", off=1, col="unchecked", py=True)
     add("attribute-expression", '<%include file="${1 +}"/>', "Either", py=True)
     add("call-expr", '<%call expr="f(,)">x</%call>', "Either", py=True)
     # an attribute expression whose Python starts on a later line than its ${
